@@ -231,6 +231,10 @@ def evaluate(ctx, batch, real_cmd, model_cmd, env, problems, reasons):
             if why:
                 rs = (kind, reason_of(why))
                 vkey = key_of(kind, opt, tok, c)
+                if batch.label == "nul-byte":
+                    rs = ("nul", "nul")
+                    vkey = "ctx:nul-byte-taken-for-a-delimiter"
+                    why = "NUL byte in the input: " + why
                 if batch.label == "comment-context":
                     # one finding for all kinds: CheckRemainingInput treats a comment before the delimiter as garbage
                     rs = ("comment", "comment")
@@ -318,6 +322,12 @@ def literal_batches(ctx, quick):
         for tok in corp.get(kind + "_valid", []):
             for c in COMMENT_CTX:
                 b.rd(kind, 0, tok, c)
+    out.append(b)
+    # a NUL byte: strchr(",)", 0) != NULL makes CheckRemainingInput take it for a delimiter
+    b = Batch("nul-byte")
+    for kind in KINDS:
+        for tok in ["\x00", "1\x00", "\x00x"] + [t + "\x00" for t in corp.get(kind + "_valid", [])[:2]]:
+            b.rd(kind, 0, tok, ",")
     out.append(b)
     # random longer tokens
     b = Batch("random-long")
